@@ -312,3 +312,19 @@ package annotations
 //@   assume-pre AcquireAuthBackendName RemoveAuthBackendExcept
 //@   at call FindBackend#1 assert own-ns: url.Source == nil || $arg1 == url.Source.Namespace || c.options.DynamicConfig.CrossNamespaceServices
 //@ end
+
+// C03 — host flags come from their own keys: the default certificate is used
+// for a host without tls entry only under ssl-always-add-https
+//@ func (*updater).UpdateHostConfig
+//@   props C03
+//@   assume-pre Mapper).Get buildHostAuthExternal
+//@   at call Get#4 assert add-https:       $arg1 == ingtypes.HostSSLAlwaysAddHTTPS
+//@   at call Get#5 assert follow-redirect: $arg1 == ingtypes.HostSSLAlwaysFollowRedirect
+//@ end
+
+// C17 — acme-expiring is a number of days
+//@ func (*updater).buildGlobalAcme
+//@   props C17
+//@   assume-pre Mapper).Get
+//@   lemma days: d.acmeData.Expiring == old(d.acmeData.Expiring) || exists n int :: d.acmeData.Expiring == n * 24 * 3600000000000
+//@ end
